@@ -581,6 +581,20 @@ def check(ctx):
                   "the shared entity-scoped scheduler is invoked for Insertion, Mutation and Removal reactions",
                   "entity-scoped reactors of kind %s are never dispatched (no scheduler passes that reaction type to the shared entity scheduler)"
                   % sorted({"Insertion", "Mutation", "Removal"} - variants))
+        # what the shared scheduler buffers is handed to the world's queue before the caller returns: a return between the
+        # buffering and the drain leaves commands of THIS trigger in the shared buffer, to be flushed by the next trigger
+        buf_i = [i for i in range(1, impl.arg_count + 1) if "ReactionCommand" in impl.local_ty(i)]
+        for (body, b, t, fr) in prog.callers_of(lambda n: n == impl.path):
+            if not buf_i:
+                break
+            src_b = LP.coll_source(body, t["args"][buf_i[0] - 1])
+            drains = [b2 for b2, t2, fr2 in body.iter_calls() if fr2 and lib.tail(mir.fn_name(fr2), 1) == "drain" and t2["args"]
+                      and LP.coll_source(body, t2["args"][0]) == src_b]
+            w_ = lib.path_to_return_avoiding(body, [lib.call_target(body, b)], drains)
+            ctx.check(bool(drains) and w_ is None, "C01.b", "%s:buffered-reactions-drained-before-return" % lib.fkey(body), body.loc(b),
+                      "every path from the buffering of entity-scoped reactions to return drains the buffer into the queue",
+                      "%s can return after buffering entity-scoped reactions without draining the buffer (they would be delivered with a later, unrelated trigger)" % lib.fkey(body),
+                      lib.render_path(body, w_) if w_ else None)
         for (body, b, t, fr) in prog.callers_of(lambda n: n == impl.path):
             ctx.touch(body)
             ent = tuple(sorted(map(tuple, origins(body, t["args"][ent_i - 1])), key=str))
